@@ -466,13 +466,15 @@ impl<'src> Walker<'src>
 
 		while !self.is_over()
 		{
-            let c = self.next_char();
+            // Go token by token, so that braces inside
+            // string literals and comments do not count
+            let token = self.next_token();
 
-            if c == '{'
+            if token.kind == syntax::TokenKind::BraceOpen
 			{
 				brace_nesting += 1;
 			}
-			else if c == '}'
+			else if token.kind == syntax::TokenKind::BraceClose
 			{
                 if brace_nesting == 0
                     { break; }
@@ -480,7 +482,14 @@ impl<'src> Walker<'src>
 				brace_nesting -= 1;
 			}
 
-            self.cursor_index += c.len_utf8();
+            let prev_index = self.cursor_index;
+            self.advance_to_token_end(&token);
+
+            if self.cursor_index <= prev_index
+            {
+                self.cursor_index =
+                    prev_index + self.next_char().len_utf8();
+            }
 		}
 
 		let end = self.cursor_index;
